@@ -39,6 +39,7 @@ struct Ctx
     Module& M;
     const DataLayout& DL;
     bool res = false;    // resumable mode
+    bool exprInline = true;    // fold single-use pure instructions into their user
     bool chain = false;  // res mode layout: skip chain (Lazy-CSeq style) instead of early returns
     std::string prefix;  // root prefix
 
@@ -49,7 +50,15 @@ struct Ctx
     std::set<GlobalVariable*> reachG;
     std::set<Function*> addrTaken;
     std::set<Function*> resumable;
-    std::set<Function*> skipCalls;    // dynamic initialisers irrelevant to the scenario
+    std::set<Function*> skipCalls;
+    std::vector<std::string> opaquePrefixes;    // defined functions treated as environment (formatting)
+    bool isExt(const Function* F) const
+    {
+        if (F->isDeclaration()) return true;
+        for (auto& p : opaquePrefixes)
+            if (F->getName().startswith(p)) return true;
+        return false;
+    }    // dynamic initialisers irrelevant to the scenario
 
     // names
     DenseMap<Type*, std::string> tyNames;
